@@ -89,11 +89,33 @@ def curCall (th : Th) : Option Call :=
   | some c => some c
   | none => th.prog.head?
 
+/-- the byte-copy loop of `Write` / of filling a reserved slice, bytes `j … n-1` -/
+def copyLoop (cfg : Cfg) (buf : Array UInt8) (start j n : Nat) : Array UInt8 :=
+  (List.range' j (n - j)).foldl (fun b i => wr b (cfg.idx (start + i)) (cfg.src (start + i))) buf
+
+/-- Driver-only shortcut: between two marks no other thread runs, so the per-byte
+steps of a producer copy are performed in one go (same result as iterating
+`step`; avoids copying the ring array once per byte). -/
+def accel (cfg : Cfg) (s : St) (t : Tid) : St :=
+  match s.getTh t with
+  | some th =>
+    match th.pc with
+    | .w41c n ppos j =>
+      if j < n then
+        ({ s with sh := { s.sh with buf := copyLoop cfg s.sh.buf ppos j n } }).setTh t (th.goto (.w41c n ppos n))
+      else s
+    | .f0 start len j =>
+      if j < len then
+        ({ s with sh := { s.sh with buf := copyLoop cfg s.sh.buf start j len } }).setTh t (th.goto (.f0 start len len))
+      else s
+    | _ => s
+  | none => s
+
 /-- thread `t` runs from its mark to the next mark (or return, or into `Wait`) -/
 def runVisible (cfg : Cfg) (s : St) (t : Tid) : Nat → Option St
   | 0 => some s
   | fuel + 1 =>
-    match step cfg s t with
+    match step cfg (accel cfg s t) t with
     | none => none
     | some s' =>
       match s'.getTh t with
@@ -116,7 +138,7 @@ inductive Status where
 deriving DecidableEq
 
 def Status.str : Status → String
-  | .ok => "ok" | .blocked => "blocked" | .fin => "fin" | .nothread => "nothread"
+  | .ok => "ok" | .blocked => "blocked" | .fin => "nocall" | .nothread => "nothread"
 
 def bigStep (d : DSt) (t : Tid) : DSt × Status :=
   if !declared d t then (d, .nothread) else
@@ -292,7 +314,7 @@ def handle (d : DSt) (ws : List String) : DSt × String × String :=
         if !(allowed t c) || (match t with | .k _ => true | _ => false) then (d, "bad-op", "bad-op") else
         let (d', l) := callLine d t c; (d', l, specLine d)
       | _, _ => (d, "bad-op", "bad-op")
-    | ["finish"] => let (d', l) := finishLine d; ({ d' with dead := true }, l, "fin ok")
+    | ["finish"] => let (d', l) := finishLine d; ({ d' with dead := true }, l, s!"fin ok {d.cfg.size}")
     | ["pipe", total, _chunk] =>
       match total.toNat? with
       | some n => (d, s!"pipe rf={n}:eof wt=eof pre=true", "pipe ok")
